@@ -11,7 +11,7 @@ def main():
 
     def body():
         entries = ['VerifHarness_C16_InsertionRoundTrip', 'VerifHarness_C16_DeletionRoundTrip', 'VerifHarness_C16_InsertionStrict', 'VerifHarness_C16_DeletionStrict']
-        prog, secs = driver.load('prover', 'prover', HARNESS, entries)
+        prog, secs = driver.load('prover', 'prover', HARNESS, entries + ['VerifHarness_C16_IndexRange'])
         run.log('SSA of %d functions built in %.1fs' % (len(prog['funcs']), secs))
         stubs.PARAMS['maxlen'] = 3 if run.thorough else 2
         sm = stubs.make_stubs()
@@ -19,6 +19,28 @@ def main():
             res, ex = driver.run_entry(run, prog, e, sm, loop_bound=6, max_paths=20000)
             run.log(e, run.extra['paths'].get(e), 'solver calls', ex.solver_calls, '%.1fs' % ex.solver_time)
             driver.report(run, ex, 'prover', 'prover', HARNESS, e, res)
+        # structural obligation on the mirror structs that encoding/json decodes into: index fields are 32-bit unsigned, so json rejects larger numbers
+        def ftype(struct, field):
+            tid = prog_types.get('worldcoin/gnark-mbu/prover.' + struct)
+            if tid is None:
+                return None
+            t = prog['types'][prog['types'][tid]['under']]
+            for f in t['fields']:
+                if f['name'] == field:
+                    return prog['types'][f['type']]
+            return None
+        prog_types = {t['str']: i for i, t in enumerate(prog['types']) if t}
+        a = ftype('InsertionParametersJSON', 'StartIndex')
+        b = ftype('DeletionParametersJSON', 'DeletionIndices')
+        okw = bool(a and a.get('basic') == 'int' and a.get('bits') == 32 and not a.get('signed') and b and b['kind'] == 'slice' and prog['types'][b['elem']].get('bits') == 32
+                   and not prog['types'][b['elem']].get('signed'))
+        run.obligation('index fields of the JSON mirror structs are uint32 (so encoding/json rejects indices outside 32 bits)', 'unsat' if okw else 'sat', 'unsat', 0.0)
+        if not okw:
+            failed, panicked, out = driver.replay_native('prover', 'prover', HARNESS, 'VerifHarness_C16_IndexRange', {})
+            if failed:
+                run.violation('an index outside 32 bits is decoded without error: %s' % failed, {'harness': 'VerifHarness_C16_IndexRange', 'failed': failed, 'native_output_tail': out[-800:]}, key='C16:index-range')
+            else:
+                run.inconclusive.append('mirror struct index type changed but out-of-range indices are still rejected natively')
         run.assumptions += sorted(stubs.USED) + ['array lengths <= %d (ragged proofs and empty arrays included); values < 2^256' % stubs.PARAMS['maxlen'],
                                                   'uint32 range of indices and JSON syntax are encoding/json\'s contract (not re-verified)']
         run.samples = run.obls[:4]
